@@ -1,4 +1,5 @@
 import Verif.Lemmas.Await
+import Verif.Lemmas.Token
 import Verif.Gen.Timing
 
 /-! # C14 — deadlines, cancellation and progress behave the same under any traffic
@@ -209,6 +210,43 @@ theorem c14_shared_token_starts (R : Int → Bool) (fire : Option Nat) (s0 : Nat
     runSeq R fire s0 ((cfg, gap, ev) :: rest)
       = (s0, run R (withToken cfg fire s0) ev)
         :: runSeq R fire (s0 + (run R (withToken cfg fire s0) ev).time + gap) rest := rfl
+
+/-! ## The cancellation token itself (`CancellationToken`) -/
+section Token
+open Verif.Model.Token
+
+/-- The flag only ever goes up: after any sequence of operations the token is cancelled iff it was
+before or some `cancel()` was among them — in particular, once `is_cancelled` has answered true
+it answers true for ever (what "`CancelledError` only if the token fired" rests on), and
+registering callbacks or querying never cancels. -/
+theorem c14_token_flag (r : Nat → Bool) (t : Tok) (ops : List Op) :
+    ((run r t ops).1.cancelled = true ↔ (t.cancelled = true ∨ Op.cancel ∈ ops))
+    ∧ (∀ more, (run r t ops).1.cancelled = true → (run r t (ops ++ more)).1.cancelled = true) := by
+  refine ⟨run_cancelled r t ops, ?_⟩
+  intro more h
+  rw [run_append]
+  exact (run_cancelled r _ more).mpr (Or.inl h)
+
+/-- `cancel()` never raises, whatever the callbacks do, and calls exactly the callbacks registered
+so far, each once, in registration order; `add_callback` on a cancelled token calls the new
+callback (only it) at once, and that call's exception is the only one that can reach a caller. -/
+theorem c14_token_callbacks (r : Nat → Bool) (t : Tok) (ops : List Op) :
+    (step r (run r t ops).1 .cancel).2.raised = false
+    ∧ (step r (run r t ops).1 .cancel).2.invoked = t.cbs ++ added ops
+    ∧ (∀ i, (step r (run r t ops).1 (.add i)).2.invoked
+          = if (run r t ops).1.cancelled then [i] else [])
+    ∧ (∀ i, (step r (run r t ops).1 (.add i)).2.raised = true →
+          (run r t ops).1.cancelled = true ∧ r i = true) := by
+  refine ⟨rfl, ?_, ?_, ?_⟩
+  · simp [step, run_cbs]
+  · intro i; simp only [step]; split <;> simp_all
+  · intro i; simp only [step]; split <;> simp_all
+
+example : (run (fun i => i == 2) {} [.add 1, .query, .cancel, .add 2, .cancel, .query]).2
+    = [{}, { answer := some false }, { invoked := [1] }, { invoked := [2], raised := true },
+       { invoked := [1, 2] }, { answer := some true }] := by decide
+
+end Token
 
 /-! Non-vacuity -/
 def exCfg : Cfg Nat :=
